@@ -40,8 +40,12 @@ def run_tolerant(binary, jobs, shards, timeout=2400):
         rounds = 0
         while pending:
             rounds += 1
-            if rounds > 40:
-                raise vlib.Inconclusive("crash engine keeps dying")
+            if len(hangs) >= 6 or rounds > 12:
+                # enough evidence: do not spend 8 s on every further hanging input
+                for idx in pending:
+                    for i in idx:
+                        results[i] = {"fails": [], "calls": 0, "posts": 0, "trees": 0, "worst_ratio": 0, "skipped": True}
+                break
             procs = []
             for k, idx in enumerate(pending):
                 inp = os.path.join(work, "in%d_%d.ndjson" % (rounds, k))
@@ -156,6 +160,7 @@ def run(ck):
     worst = 0.0
     seen = {}
     slow = []
+    ck.notes["jobs_skipped_after_repeated_hangs"] = sum(1 for r in res if r.get("skipped"))
     for j, r in zip(jobs, res):
         calls += r["calls"]; posts += r["posts"]; trees += r["trees"]
         worst = max(worst, r.get("worst_ratio", 0))
